@@ -363,5 +363,5 @@ func configuredModeApplied(p *core.Prog, r *core.Report, h *core.RuleH) {
 	}
 	core.CheckEffectsFn(p, h, fn, core.EffectRule{Min: 1, Guards: early,
 		Derived: []core.Derived{{Name: "cache-cannot-flush-in-read-only", Alts: [][]string{{"configured-not-read-only(ne-form)"}, {"configured-not-read-only(eq-form)"}, {"cache-switched"}, {"no-write-cache"}}}},
-		Effect: core.CallTo("(*pkg/local_object_storage/metabase.DB).Init"), Need: func(string) []string { return []string{"cache-cannot-flush-in-read-only"} }})
+		Effect:  core.CallTo("(*pkg/local_object_storage/metabase.DB).Init"), Need: func(string) []string { return []string{"cache-cannot-flush-in-read-only"} }})
 }
